@@ -3,12 +3,14 @@ import Casket.Model.Parser
 import Casket.Model.ExecSetup
 import Casket.Spec.Dispenser
 import Casket.Spec.HtCacheLock
+import Casket.Model.UpstreamAddr
 import Driver.Proto
 /-
 Streams of C11.
   c11.disp   tokens  ops     tokens = comma list file:line:texthex; ops = string over n a l b B r 2 v i f N
              out = per-op results joined by ";" then "|" Val ":" Line ":" Nesting
   c11.setup  directive confighex    out = total | PANIC:… | TIMEOUT:… | DISAGREE:…   (search; the model's answer is "total")
+  c11.upstream addrhex        the real proxy.parseUpstream; out = err | h:<count>:<first hex>:<last hex> | PANIC:…
   c11.reload directive confighex ops   the same configuration loaded several times while its files change; out as c11.setup (search)
 -/
 namespace Driver.C11
@@ -162,12 +164,31 @@ def htJudge (f : List String) (out : String) : String :=
       | _, _ => "bad:unparsable:" ++ out
     | _ => "bad:unparsable:" ++ out
 
+/-! c11.upstream  addrhex   out = err | h:<count>:<first hex>:<last hex> -/
+
+open Casket.UpstreamAddr in
+def upstreamModel : List String → String
+  | [h] =>
+    match Driver.unhex h with
+    | none => "bad-case"
+    | some u =>
+      match parseUpstream u with
+      | .err => "err"
+      | .panic => "PANIC:slice bounds out of range"
+      | .hosts hs => s!"h:{hs.length}:{Driver.hex (hs.headD [])}:{Driver.hex (hs.getLastD [])}"
+  | _ => "bad-case"
+
+/-- the property on the observed answer: the step returned -/
+def upstreamJudge (_ : List String) (out : String) : String :=
+  if out.startsWith "PANIC" then Casket.UpstreamAddr.verdict .panic else Casket.UpstreamAddr.verdict .err
+
 def streams : List Driver.Stream := [
   { name := "c11.disp", model := dispModel, judge := dispJudge },
   { name := "c11.setup", model := fun _ => "total", judge := setupJudge },
   { name := "c11.exec", model := execModel, judge := execJudge },
   { name := "c11.reload", model := fun _ => "total", judge := setupJudge },
-  { name := "c11.htcache", model := htModel, judge := htJudge }
+  { name := "c11.htcache", model := htModel, judge := htJudge },
+  { name := "c11.upstream", model := upstreamModel, judge := upstreamJudge }
 ]
 
 end Driver.C11
